@@ -12,23 +12,46 @@
 //! * `C04.keys`              key set of the snapshot vs valued ∪ guarded ∪ in-flight;
 //!                           `count` / `keys` results vs the snapshot
 //! * `C07.callback_args`     eviction callback arguments
+//! * `C07.missed_eviction`   a soft-limited call went on to lock its key over the limit although an unlocked
+//!                           valued entry could have been evicted
 //! * `C08.callback_under_lock` callback invoked while holding the global lock
 //! * `C10.expiry`            result of `lock_entries_unlocked_for_at_least` (L)
 //! * `C11.stream`            stream items / end
 //! * `C12.consume`           `into_entries_unordered` multiset
-//! * `C13.panic`             PANIC / HANG / poisoned or held global lock
+//! * `C09.lru_order`         (L) an eviction round passed over an unlocked entry whose uses all ended before
+//!                           the last use of an offered entry began
+//! * `C13.panic`             PANIC / poisoned or held global lock
+//! * `C13.hang`              HANG (watchdog or self-deadlock on the global lock)
 //! * `C14.lost_wakeup`       an agent is blocked although its key's mutex is free
 
 use crate::exec::{AgentKind, Segment};
 use crate::sched::Event;
 use crate::types::*;
 use std::collections::{BTreeMap, BTreeSet, VecDeque};
+use std::sync::OnceLock;
+
+/// If set (`--monitors a,b,..`), only hits whose id starts with one of these prefixes are reported;
+/// other monitors still keep their shadow state but neither stop a run nor count.
+pub static ONLY: OnceLock<Vec<String>> = OnceLock::new();
 
 #[derive(Debug, Clone)]
 struct MGuard {
     key: Key,
     /// From creation until its drop agent finished.
     live: bool,
+    /// Obtained by a lock call for this key (a "use" in the sense of C09), not by a bulk operation.
+    by_key: bool,
+}
+
+/// C09 bookkeeping per key: the uses (lock call for the key ... drop of its guard) seen so far.
+#[derive(Debug, Clone, Default)]
+struct Uses {
+    /// lock calls for the key in flight + live guards obtained by such calls
+    open: usize,
+    /// label index at which the last such call / guard drop finished
+    last_end: Option<usize>,
+    /// label index of the `start` of the last lock call that obtained a guard
+    last_success_start: Option<usize>,
 }
 
 #[derive(Debug, Clone, Default)]
@@ -42,6 +65,10 @@ struct MAgent {
     /// Expire agent: clock at `start`, and the expected result computed at the scan step.
     expire_now: u64,
     expire_expected: Option<BTreeSet<Key>>,
+    /// Soft-limited lock agent: its next step is the eviction/look-up critical section.
+    expect_enter: bool,
+    /// ... after the guards it still owns have been dropped (`cbret ok hold`).
+    reenter_after_drops: bool,
     /// Stream agent.
     stream_keys: Vec<Key>,
     stream_items: BTreeSet<Key>,
@@ -57,6 +84,10 @@ pub struct Monitors {
     agents: BTreeMap<Aid, MAgent>,
     clock: u64,
     hits: Vec<Violation>,
+    /// C09: number of labels seen, per-key uses, start index of lock agents
+    idx: usize,
+    uses: BTreeMap<Key, Uses>,
+    lock_start: BTreeMap<Aid, (Key, usize)>,
 }
 
 impl Monitors {
@@ -69,6 +100,9 @@ impl Monitors {
             agents: BTreeMap::new(),
             clock: 0,
             hits: Vec::new(),
+            idx: 0,
+            uses: BTreeMap::new(),
+            lock_start: BTreeMap::new(),
         }
     }
 
@@ -93,7 +127,7 @@ impl Monitors {
                 format!("{}: guard {} for key {} shows value {:?}, the previous holder left {:?}", what, g, k, v, sv),
             );
         }
-        self.guards.insert(g, MGuard { key: k, live: true });
+        self.guards.insert(g, MGuard { key: k, live: true, by_key: false });
     }
 
     /// `_unlock` of guard `g` begins now (LRU: a valued entry gets stamped with the current time).
@@ -113,8 +147,18 @@ impl Monitors {
             (done, ag.dropq.front().copied())
         };
         if let Some(g) = done {
+            let mut ended: Option<Key> = None;
             if let Some(mg) = self.guards.get_mut(&g) {
                 mg.live = false;
+                if mg.by_key {
+                    ended = Some(mg.key);
+                }
+            }
+            if let Some(k) = ended {
+                let idx = self.idx;
+                let u = self.uses.entry(k).or_default();
+                u.open = u.open.saturating_sub(1);
+                u.last_end = Some(idx);
             }
             if let Some(n) = next {
                 self.begin_unlock(n);
@@ -134,15 +178,23 @@ impl Monitors {
         if !seg.snap.gone {
             self.check_snapshot(seg);
         }
+        if let Some(only) = ONLY.get() {
+            self.hits.retain(|h| only.iter().any(|p| h.id.starts_with(p.as_str())));
+        }
         std::mem::take(&mut self.hits)
     }
 
     fn step(&mut self, seg: &Segment, label: &Label, obs: &Obs) {
+        self.idx += 1;
+        if let Label::Start(a, Call::Lock { key, .. }) = label {
+            self.lock_start.insert(*a, (*key, self.idx));
+            self.uses.entry(*key).or_default().open += 1;
+        }
         if let Obs::Panic(m) = obs {
             self.hit("C13.panic", format!("{} -> PANIC {}", label.text(), m));
         }
         if let Obs::Hang(m) = obs {
-            self.hit("C13.panic", format!("{} -> HANG {}", label.text(), m));
+            self.hit("C13.hang", format!("{} -> HANG {}", label.text(), m));
         }
         match label {
             Label::Start(a, call) => {
@@ -157,6 +209,10 @@ impl Monitors {
                         ag.expire_now = self.clock;
                         self.agents.insert(*a, ag);
                     }
+                    Call::Lock { lim, .. } if *lim > 0 => {
+                        ag.expect_enter = true;
+                        self.agents.insert(*a, ag);
+                    }
                     _ => {
                         self.agents.insert(*a, ag);
                     }
@@ -164,6 +220,33 @@ impl Monitors {
                 self.agent_obs(seg, *a, label, obs);
             }
             Label::Resume(a, _) => {
+                // C07: the enter step of a soft-limited call that does not invoke the callback
+                let enter = self.agents.get(a).map(|x| x.expect_enter && x.dropq.is_empty()).unwrap_or(false);
+                if enter && !obs.is_failure() {
+                    self.agents.get_mut(a).unwrap().expect_enter = false;
+                    if !matches!(obs, Obs::Offered(_)) {
+                        if let Some(Call::Lock { lim, .. }) = self.agents.get(a).and_then(|x| x.call) {
+                            let n = seg.pre.entries.len();
+                            let live = self.live_keys();
+                            let evictable: Vec<Key> = seg
+                                .pre
+                                .entries
+                                .iter()
+                                .filter(|e| !e.locked && e.value.is_some() && !live.contains(&e.key))
+                                .map(|e| e.key)
+                                .collect();
+                            if n >= lim as usize && !evictable.is_empty() {
+                                self.hit(
+                                    "C07.missed_eviction",
+                                    format!(
+                                        "{}: the call proceeded without invoking the callback although the map held {} entries (limit {}) and {:?} were unlocked and valued",
+                                        label.text(), n, lim, evictable
+                                    ),
+                                );
+                            }
+                        }
+                    }
+                }
                 // expiry scan: the first resume of an expire agent
                 if let Some(Call::Expire(d)) = self.agents.get(a).and_then(|x| x.call) {
                     if self.agents[a].expire_expected.is_none() {
@@ -208,7 +291,12 @@ impl Monitors {
             }
             Label::Cancel(_) => {}
             Label::Gop(g, op) => self.gop(*g, *op, obs),
-            Label::CbRet(a, _, hold) => {
+            Label::CbRet(a, res, hold) => {
+                if *res == CbRes::Ok {
+                    if let Some(ag) = self.agents.get_mut(a) {
+                        ag.expect_enter = true;
+                    }
+                }
                 if *hold {
                     let off = self.agents.get(a).map(|x| x.offered.clone()).unwrap_or_default();
                     if let Some(first) = off.first().copied() {
@@ -234,8 +322,30 @@ impl Monitors {
 
     /// Observations that can come out of any by-key / expire / count / keys step.
     fn agent_obs(&mut self, seg: &Segment, a: Aid, label: &Label, obs: &Obs) {
+        // C09: the end of a lock call
+        if let Some((key, start)) = self.lock_start.get(&a).copied() {
+            match obs {
+                Obs::Guard(..) => {
+                    self.lock_start.remove(&a);
+                    self.uses.entry(key).or_default().last_success_start = Some(start);
+                }
+                Obs::TryFail | Obs::Err | Obs::Panicked | Obs::Cancelled | Obs::Panic(_) | Obs::Hang(_) => {
+                    self.lock_start.remove(&a);
+                    let idx = self.idx;
+                    let u = self.uses.entry(key).or_default();
+                    u.open = u.open.saturating_sub(1);
+                    u.last_end = Some(idx);
+                }
+                _ => {}
+            }
+        }
         match obs {
-            Obs::Guard(g, k, v) => self.new_guard(&label.text(), *g, *k, *v),
+            Obs::Guard(g, k, v) => {
+                self.new_guard(&label.text(), *g, *k, *v);
+                if let Some(mg) = self.guards.get_mut(g) {
+                    mg.by_key = true;
+                }
+            }
             Obs::Offered(list) => {
                 let lim = match self.agents.get(&a).and_then(|x| x.call) {
                     Some(Call::Lock { lim, .. }) => lim as usize,
@@ -265,6 +375,45 @@ impl Monitors {
                 }
                 if list.is_empty() {
                     self.hit("C07.callback_args", format!("{}: callback invoked with no guards", label.text()));
+                }
+                if self.backend == Backend::L {
+                    // C09: candidates = entries that were unlocked and valued before the round
+                    let cands: Vec<Key> = seg
+                        .pre
+                        .entries
+                        .iter()
+                        .filter(|e| !e.locked && self.shadow.contains_key(&e.key) && !live.contains(&e.key))
+                        .map(|e| e.key)
+                        .collect();
+                    let pos = |k: Key| list.iter().position(|x| x.1 == k);
+                    for (j, (_, kb, _)) in list.iter().enumerate() {
+                        let Some(sb) = self.uses.get(kb).and_then(|u| u.last_success_start) else { continue };
+                        for ka in &cands {
+                            if ka == kb {
+                                continue;
+                            }
+                            let Some(ua) = self.uses.get(ka) else { continue };
+                            if ua.open != 0 {
+                                continue;
+                            }
+                            let Some(ea) = ua.last_end else { continue };
+                            if ea < sb && pos(*ka).map(|i| i > j).unwrap_or(true) {
+                                self.hit(
+                                    "C09.lru_order",
+                                    format!(
+                                        "{}: key {} offered {} although every use of unlocked key {} ended (label {}) before the last use of {} began (label {})",
+                                        label.text(),
+                                        kb,
+                                        if pos(*ka).is_some() { "before it" } else { "and it was passed over" },
+                                        ka,
+                                        ea,
+                                        kb,
+                                        sb
+                                    ),
+                                );
+                            }
+                        }
+                    }
                 }
                 for (g, k, v) in list {
                     self.new_guard(&label.text(), *g, *k, *v);
